@@ -918,3 +918,89 @@ def dom1(proj, rep, table=None):
                 rep.ok('DOM1', q, f'`{p}` admitted from {got if got is not None else "-inf"} (needed: {lo})', m, fi.node, text=f'{q}.{p} domain')
     rep.count('DOM1.parameters', n)
     return n
+
+
+# ------------------------------------------------------------------------------------------------ EX1
+RULE_EX1 = ('EX1: exhaustive dispatch: when a function asserts `name in {literals}` and then dispatches on `name` with an if/elif chain of two or more arms '
+            '(`name == lit` / `name in {lits}`) that has no `else`, the arms cover every asserted literal; and no arm tests a literal the assert rejects. An '
+            'admitted option without an arm leaves the result unbound (UnboundLocalError) or silently skips the work for exactly that option.')
+
+
+def _lits(e):
+    if isinstance(e, (ast.Set, ast.Tuple, ast.List)) and e.elts and all(isinstance(x, ast.Constant) for x in e.elts):
+        return {x.value for x in e.elts}
+    return None
+
+
+def _test_vals(t):
+    if isinstance(t, ast.Compare) and len(t.ops) == 1:
+        l, op, r = t.left, t.ops[0], t.comparators[0]
+        if isinstance(op, ast.Eq) and isinstance(r, ast.Constant) and isinstance(r.value, (str, int)) and not isinstance(r.value, bool):
+            return ast.unparse(l), {r.value}, 'eq'
+        if isinstance(op, ast.In) and _lits(r) is not None:
+            return ast.unparse(l), _lits(r), 'in'
+    return None
+
+
+def ex1(proj, rep, modules=None):
+    rep.rule('EX1', RULE_EX1)
+    n = 0
+    for fi in proj.iter_functions():
+        m = fi.module
+        if not _in_scope(m, modules):
+            continue
+        fn = fi.node
+        if not isinstance(fn, (ast.FunctionDef, ast.AsyncFunctionDef)):
+            continue
+        # asserted enumerations: top-level asserts of the function body, with their position
+        asserted = {}
+        for i, s in enumerate(fn.body):
+            if isinstance(s, ast.Assert):
+                tests = s.test.values if isinstance(s.test, ast.BoolOp) and isinstance(s.test.op, ast.And) else [s.test]
+                for t in tests:
+                    tv = _test_vals(t)
+                    if tv and tv[2] == 'in' and tv[0] not in asserted:
+                        asserted[tv[0]] = (tv[1], s)
+        if not asserted:
+            continue
+        seen = set()
+        for s in ast.walk(fn):
+            if not isinstance(s, ast.If) or id(s) in seen:
+                continue
+            chain, cur, has_else = [], s, False
+            while True:
+                seen.add(id(cur))
+                chain.append(cur)
+                if len(cur.orelse) == 1 and isinstance(cur.orelse[0], ast.If):
+                    cur = cur.orelse[0]
+                else:
+                    has_else = bool(cur.orelse)
+                    break
+            tvs = [_test_vals(c.test) for c in chain]
+            if len(chain) < 2 or any(tv is None for tv in tvs) or len({tv[0] for tv in tvs}) != 1:
+                continue
+            name = tvs[0][0]
+            if name not in asserted or asserted[name][1].lineno > s.lineno:
+                continue
+            # the dispatched name must not be re-bound between the assert and the chain
+            base = name.split('.')[0].split('[')[0]
+            rebound = any(isinstance(x, ast.Name) and x.id == base and isinstance(x.ctx, ast.Store) and asserted[name][1].lineno < x.lineno < s.lineno for x in ast.walk(fn))
+            if rebound:
+                continue
+            n += 1
+            rep.touch(m)
+            want = asserted[name][0]
+            covered = set().union(*[tv[1] for tv in tvs])
+            missing = want - covered
+            extra = covered - want
+            if missing and not has_else:
+                rep.violation('EX1', fi.qual, f'`{ast.unparse(asserted[name][1])[:60]}` admits {sorted(map(str, missing))} but the dispatch at line {s.lineno} has no arm for it '
+                              f'and no else: the option is accepted and then not handled', m, s)
+            elif extra:
+                arm = next(c for c, tv in zip(chain, tvs) if tv[1] & extra)
+                rep.violation('EX1', fi.qual, f'arm `{ast.unparse(arm.test)[:50]}` handles {sorted(map(str, extra))}, which `{ast.unparse(asserted[name][1])[:50]}` rejects: '
+                              f'dead arm or stale assert (the two enumerations must agree)', m, arm)
+            else:
+                rep.ok('EX1', fi.qual, f'dispatch on `{name}` covers {sorted(map(str, want))}', m, s)
+    rep.count('EX1.dispatch_chains', n)
+    return n
